@@ -33,6 +33,7 @@
   never show up as a doc gap (the harness keeps it out of the judged set).
 -/
 import Kopf.Lemmas.C15_Match
+import Kopf.Lemmas.C15_Cycle
 import Kopf.Model.C15_Selector
 namespace Kopf.C15
 
@@ -607,85 +608,226 @@ def gate345a874 (h : Handler V) (c : Cause V) : Bool :=
   !(h.kind.reason == none && !h.kind.initial && c.kind.marked)
 
 -- ---- stealth -------------------------------------------------------------------------------------
-/- FULL STATEMENT of the clause "objects matched by no handler are left untouched: no annotations,
-   no finalizer", over the model's cycle. Its `Effect` list enumerates what `process_resource_causes`
-   + `application.apply` can do to the object in one cycle: the patch carried in from
-   `memory.remaining_patch`, on.event invocations, daemon spawning, the three `patch.fns.append`
-   sites, `process_changing_cause`, and the sleep-and-touch for a non-empty `delays`:
-       theorem stealth_full (nothing (pre)matches) : cycle r cs o stopped = []
-   It is FALSE of the code in three ways; `stealth_exact` says precisely what is done instead:
-     * `stealth_blocked_witness`: the own finalizer is still on the object → it is removed (this is
-       what the clause wants — "no finalizer" — so it is the code that is right, not a finding);
+/- The clause "objects matched by no handler are left untouched: no annotations, no finalizer", over
+   the model's cycle. Its `Effect` list enumerates what `process_resource_event` /
+   `process_resource_causes` + `application.apply` can do to the object in one cycle: the re-sending of
+   a transformation carried in from `memory.remaining_patch`, on.event invocations, daemon spawning, the
+   purge of leftover progress records in the blind branch, the three `patch.fns.append` sites,
+   `process_changing_cause`, and the sleep-and-touch for a non-empty `delays`.
+   The theorems are proved for EVERY variant `v : Repairs` of the code that purges in the blind branch
+   (/repo 423b86f) -- in particular for /repo 02af7ce (`Repairs.rework`, = `cycle`: the code as it is) and for
+   423b86f as first committed, with 608a57d's head block (`Repairs.at608`): for an object that nothing matches
+   the two do the same.
+   READING of "left untouched" (restated after /repo 423b86f, from the property text): the framework
+   puts NOTHING of its own on such an object -- no annotation, no finalizer -- and calls nothing for it.
+   Taking its own leftovers OFF the object (the own finalizer; since 423b86f also the progress records of
+   the resource's handlers and of their sub-handlers, left by a handling that was open when the object
+   stopped matching) is what makes "no annotations, no finalizer" true: a REMOVAL (`Effect.isRemoval`)
+   conforms. An object that was never handled carries none of these and gets no request at all.
+   CAVEAT (finding C15-F9, `stealth_purge_by_name_witness`): "its own" is decided by handler id and
+   annotation prefix; a record that ANOTHER operator with the same ids wrote on an object of its share is
+   purged just the same -- for that set-up the reading above is too kind to the code, and the literal
+   clause ("left untouched") is what the two-operator oracle of the harness checks.
+       theorem stealth_full (nothing (pre)matches) : ∀ e ∈ cycle r cs o stopped, e.isRemoval = true
+   is FALSE of the code in two ways; `stealth_exact` says precisely what is done instead:
      * `stealth_carried_witness` (finding C15-F5, by design): a handler's transformation function of an
        earlier cycle, whose JSON-patch was rejected with HTTP 422, is re-sent although the object
-       matches nothing any more (/repo 1c8f3dd keeps exactly the handlers' functions). Replayed on
-       the real code by corpus/C15/d17-carried-patch.json;
+       matches nothing any more (/repo 1c8f3dd keeps exactly the handlers' functions) -- if it still has
+       something to change in the object: one that is fulfilled already sends no request
+       (`carried_fulfilled_sends_nothing`). Replayed on the real code by corpus/C15/d17-carried-patch.json;
      * `stealth_touch_witness` (finding C15-F6): a daemon/timer that matched the object earlier is
        still exiting (`match_daemons` returns its polling delay): the cycle sleeps and then writes
        the `touch-dummy` annotation to an object that matches nothing and has no finalizer — and
        nothing ever removes it. Replayed by corpus/C15/F6.json (real daemons, consecutive events).
-   `Obj.lingering` / `Obj.carried` / `Obj.resumed` are in-memory residues of EARLIER cycles and inputs
+   (`stealth_blocked_witness`: a leftover own finalizer is removed -- a removal, what the clause wants.)
+   `Obj.lingering` / `Obj.carried` / `Obj.resumed` / `Obj.records` are residues of EARLIER cycles and inputs
    here (daemon life cycles are C09's, the carried patch C08's subject); what `process_changing_cause`
-   leaves in the patch is C02's, so the touch is modelled for cycles without handling only. Progress
-   records left on an object that stopped matching while a cycle was open are C03's subject. -/
+   leaves in the patch is C02's, so the touch is modelled for cycles without handling only. -/
 
-/-- exactly what a cycle does to an object that no handler of any kind (pre)matches -/
+/-- which records the blind branch patches away: exactly the PRESENT ones that belong to a handler
+    of this resource, or are named as sub-handler records (`subrefs`) by such a present record -/
+theorem purgeIds_iff (hs : List (Handler V)) (records : List (String × List String)) (i : String) :
+    i ∈ purgeIds hs records ↔
+      i ∈ records.map (·.1) ∧
+        (i ∈ ownedIds hs ∨ ∃ rec ∈ records, rec.1 ∈ ownedIds hs ∧ i ∈ rec.2) := by
+  simp only [purgeIds, List.mem_filter, Bool.or_eq_true, List.contains_iff_mem, List.mem_flatMap]
+  constructor
+  · rintro ⟨hp, ho | ⟨rec, hr, hi⟩⟩
+    · exact ⟨hp, Or.inl ho⟩
+    · exact ⟨hp, Or.inr ⟨rec, hr.1, by simpa using hr.2, hi⟩⟩
+  · rintro ⟨hp, ho | ⟨rec, hr, hown, hi⟩⟩
+    · exact ⟨hp, Or.inl ho⟩
+    · exact ⟨hp, Or.inr ⟨rec, ⟨hr, by simpa using hown⟩, hi⟩⟩
+
+/-- only records that are ON the object are patched away (never an addition, never a blind `null`) -/
+theorem purgeIds_present (hs : List (Handler V)) (records : List (String × List String)) :
+    ∀ i ∈ purgeIds hs records, i ∈ records.map (·.1) :=
+  fun i hi => ((purgeIds_iff hs records i).1 hi).1
+
+/-- an object that carries no progress record (never handled, or handled to the end) -/
+theorem purgeIds_nil (hs : List (Handler V)) : purgeIds hs [] = [] := rfl
+
+/-- exactly what a cycle does to an object that no handler of any kind (pre)matches (NO guard; every
+    variant of the code with the blind purge) -/
+theorem stealth_exact_at (v : Repairs) (hv : v.blindPurge = true)
+    (r : Registry V) (cs : Causes V) (o : Obj) (stopped : List String)
+    (hpre : prematchAny r.changing cs.changing = false)
+    (hw : ∀ h ∈ r.watching, matchHandler h cs.watching = false)
+    (hs : ∀ h ∈ r.spawning, matchHandler h cs.spawning = false) :
+    cycleAt v r cs o stopped =
+      (if o.carriedEff then [Effect.carried] else []) ++
+      purgeEffect (purgeIds r.changing o.records) ++
+      (if o.blocked then [Effect.removeFinalizer] else []) ++
+      (if !o.deletedEvent && o.ongoing && o.blocked && !(hasHandlers r.spawning && o.lingering)
+        then [Effect.removeFinalizer] else []) ++
+      (if !o.deletedEvent && (hasHandlers r.spawning && o.lingering) && !o.carriedEff &&
+          (purgeIds r.changing o.records).isEmpty && !o.blocked
+        then [Effect.touch] else []) :=
+  cycle_unmatched v hv r cs o stopped hpre hw hs
+
+/-- … in particular the code the theorems are named after -/
 theorem stealth_exact (r : Registry V) (cs : Causes V) (o : Obj) (stopped : List String)
     (hpre : prematchAny r.changing cs.changing = false)
     (hw : ∀ h ∈ r.watching, matchHandler h cs.watching = false)
     (hs : ∀ h ∈ r.spawning, matchHandler h cs.spawning = false) :
     cycle r cs o stopped =
-      (if o.carried then [Effect.carried] else []) ++
+      (if o.carriedEff then [Effect.carried] else []) ++
+      purgeEffect (purgeIds r.changing o.records) ++
       (if o.blocked then [Effect.removeFinalizer] else []) ++
       (if !o.deletedEvent && o.ongoing && o.blocked && !(hasHandlers r.spawning && o.lingering)
         then [Effect.removeFinalizer] else []) ++
-      (if !o.deletedEvent && (hasHandlers r.spawning && o.lingering) && !o.carried && !o.blocked
-        then [Effect.touch] else []) := by
-  have e1 : iterPlain r.watching cs.watching [] = [] := by
-    simp only [iterPlain, List.filter_eq_nil_iff]
-    intro h hm; simp [selPlain, selPlainCore, selAtoms, hw h hm]
-  have e2 : iterPlain r.spawning cs.spawning stopped = [] := by
-    simp only [iterPlain, List.filter_eq_nil_iff]
-    intro h hm; simp [selPlain, selPlainCore, selAtoms, hs h hm]
-  have e3 : requiresFinalizerSpawning r.spawning cs.spawning stopped = false := by
-    simp only [requiresFinalizerSpawning, List.any_eq_false]
-    intro h hm; simp [reqFinSpawningCore, selAtoms, hs h hm]
-  rcases o with ⟨d, g, b, c, l, hd, res⟩
-  cases hS : hasHandlers r.spawning <;>
-  cases d <;> cases g <;> cases b <;> cases c <;> cases l <;>
-    simp [cycle, hpre, e3, hS, blindCore, addingCore, removingCore, mustBlockCore, releaseCore, earlyExitCore,
-      touchCore, getHandlersPlain, e1, e2, dedup, dedupBy, dedupByAux, ids]
+      (if !o.deletedEvent && (hasHandlers r.spawning && o.lingering) && !o.carriedEff &&
+          (purgeIds r.changing o.records).isEmpty && !o.blocked
+        then [Effect.touch] else []) :=
+  stealth_exact_at Repairs.rework rfl r cs o stopped hpre hw hs
 
-/-- the clause proper, under the exact guards: own finalizer absent, nothing carried in, no daemon
-    of an earlier matched period still exiting -/
-theorem stealth_total_partial (r : Registry V) (cs : Causes V) (o : Obj) (stopped : List String)
+/-- THE CLAUSE, restated (see the reading above): to an object that nothing (pre)matches the cycle
+    does nothing but REMOVALS of the framework's own leftovers -- the own finalizer, the progress records
+    present on it -- unless a still-effective transformation is carried in (C15-F5, by design) or a
+    daemon of an earlier matched period is still exiting (C15-F6). The old guard "own finalizer absent"
+    is gone: its removal is a removal. -/
+theorem stealth_removals_only_partial (v : Repairs) (hv : v.blindPurge = true)
+    (r : Registry V) (cs : Causes V) (o : Obj) (stopped : List String)
     (hpre : prematchAny r.changing cs.changing = false)
     (hw : ∀ h ∈ r.watching, matchHandler h cs.watching = false)
     (hs : ∀ h ∈ r.spawning, matchHandler h cs.spawning = false)
-    (hfin : o.blocked = false) (hcar : o.carried = false) (hlin : o.lingering = false) :
-    cycle r cs o stopped = [] := by
-  rw [stealth_exact r cs o stopped hpre hw hs]; simp [hfin, hcar, hlin]
+    (hcar : o.carriedEff = false) (hlin : o.lingering = false) :
+    ∀ e ∈ cycleAt v r cs o stopped, e.isRemoval = true := by
+  rw [stealth_exact_at v hv r cs o stopped hpre hw hs]
+  intro e he
+  simp only [hcar, hlin, Bool.and_false, Bool.false_and, Bool.false_eq_true, if_false, List.nil_append,
+    List.append_nil, List.mem_append, purgeEffect] at he
+  rcases he with (he | he) | he
+  · split at he
+    · simp at he
+    · simp only [List.mem_singleton] at he; subst he; rfl
+  · split at he
+    · simp only [List.mem_singleton] at he; subst he; rfl
+    · simp at he
+  · split at he
+    · simp only [List.mem_singleton] at he; subst he; rfl
+    · simp at he
+
+/-- the clause proper, under the exact guards -- own finalizer absent, nothing effective carried in, no
+    daemon of an earlier matched period still exiting: the ONLY thing the cycle does is to patch away
+    the progress records of the resource's handlers (and of their sub-handlers) that are present on
+    the object; see `purgeIds_iff` for which ones -/
+theorem stealth_total_partial (v : Repairs) (hv : v.blindPurge = true)
+    (r : Registry V) (cs : Causes V) (o : Obj) (stopped : List String)
+    (hpre : prematchAny r.changing cs.changing = false)
+    (hw : ∀ h ∈ r.watching, matchHandler h cs.watching = false)
+    (hs : ∀ h ∈ r.spawning, matchHandler h cs.spawning = false)
+    (hfin : o.blocked = false) (hcar : o.carriedEff = false) (hlin : o.lingering = false) :
+    cycleAt v r cs o stopped = purgeEffect (purgeIds r.changing o.records) := by
+  rw [stealth_exact_at v hv r cs o stopped hpre hw hs]; simp [hfin, hcar, hlin]
+
+/-- … and an object that carries no progress record of these handlers (never handled; handled to the
+    end; records of other operators only) gets NOTHING: no request, no call -/
+theorem stealth_never_handled_partial (v : Repairs) (hv : v.blindPurge = true)
+    (r : Registry V) (cs : Causes V) (o : Obj) (stopped : List String)
+    (hpre : prematchAny r.changing cs.changing = false)
+    (hw : ∀ h ∈ r.watching, matchHandler h cs.watching = false)
+    (hs : ∀ h ∈ r.spawning, matchHandler h cs.spawning = false)
+    (hfin : o.blocked = false) (hcar : o.carriedEff = false) (hlin : o.lingering = false)
+    (hrec : purgeIds r.changing o.records = []) :
+    cycleAt v r cs o stopped = [] := by
+  rw [stealth_total_partial v hv r cs o stopped hpre hw hs hfin hcar hlin, hrec]; rfl
+
+/-- a carried transformation that is fulfilled already (no operation on the object at hand) is no write
+    to an object that nothing matches, in any variant: forgotten beforehand (/repo 608a57d) or kept in the
+    patch and evaluated to nothing when patching (the rework) -- the cycle is the cycle without it -/
+theorem carried_fulfilled_sends_nothing (v : Repairs) (hv : v.blindPurge = true)
+    (r : Registry V) (cs : Causes V) (o : Obj) (stopped : List String)
+    (hpre : prematchAny r.changing cs.changing = false)
+    (hw : ∀ h ∈ r.watching, matchHandler h cs.watching = false)
+    (hs : ∀ h ∈ r.spawning, matchHandler h cs.spawning = false)
+    (h : o.carriedOps = false) :
+    cycleAt v r cs o stopped = cycleAt v r cs { o with carried := false } stopped := by
+  rw [stealth_exact_at v hv r cs o stopped hpre hw hs, stealth_exact_at v hv r cs _ stopped hpre hw hs]
+  simp [Obj.carriedEff, h]
 
 /-- weaker hypotheses (on.event handlers and finalizer-free spawning may match): no changing
     handler prematches, no finalizer-requiring daemon/timer matches, own finalizer absent, nothing
-    carried in, nothing lingering ⇒ the cycle queues no write of its own (no finalizer change, no
-    handling: hence no progress / diff-base annotations, no re-sent transformation, no touch) -/
-theorem stealth_partial (r : Registry V) (cs : Causes V) (o : Obj) (stopped : List String)
+    effective carried in, nothing lingering ⇒ the only write the cycle queues on its own is the purge of
+    the leftover records (no finalizer change, no handling: hence no progress / diff-base annotations,
+    no re-sent transformation, no touch) -/
+theorem stealth_partial (v : Repairs) (hv : v.blindPurge = true)
+    (r : Registry V) (cs : Causes V) (o : Obj) (stopped : List String)
     (hpre : prematchAny r.changing cs.changing = false)
     (hsp : requiresFinalizerSpawning r.spawning cs.spawning stopped = false)
-    (hfin : o.blocked = false) (hcar : o.carried = false) (hlin : o.lingering = false) :
-    ∀ e ∈ cycle r cs o stopped, e.isFrameworkWrite = false := by
-  intro e he
-  simp only [cycle, hpre, hsp, hfin, hcar, hlin, blindCore, addingCore, removingCore, mustBlockCore, releaseCore,
-    earlyExitCore, touchCore, Bool.and_false, Bool.false_and, Bool.or_false, Bool.not_false, Bool.and_true,
-    Bool.and_not_self, Bool.false_eq_true, if_false, List.append_nil, List.nil_append, List.mem_append] at he
-  rcases he with he | he
-  · split at he
-    · simp only [List.mem_singleton] at he; subst he; rfl
-    · simp at he
-  · split at he
-    · simp only [List.mem_singleton] at he; subst he; rfl
-    · simp at he
+    (hfin : o.blocked = false) (hcar : o.carriedEff = false) (hlin : o.lingering = false) :
+    ∀ e ∈ cycleAt v r cs o stopped, e.isFrameworkWrite = true → e = Effect.purge (purgeIds r.changing o.records) := by
+  intro e he hwr
+  have mem_opt : ∀ {c : Prop} [Decidable c] {x : Effect}, e ∈ (if c then [x] else []) → c ∧ e = x := by
+    intro c _ x h; split at h <;> simp_all
+  simp only [cycleAt, cycleFull, finishCycle, List.mem_append] at he
+  rcases he with ((((((h | h) | h) | h) | (h | h)) | h) | (h | h))
+  · obtain ⟨hc, _⟩ := mem_opt h; simp [hcar] at hc
+  · obtain ⟨_, rfl⟩ := mem_opt h; cases hwr
+  · obtain ⟨_, rfl⟩ := mem_opt h; cases hwr
+  · cases hC : hasHandlers r.changing
+    · simp [hC, blindCore, purgeEffect] at h
+    · simp only [hC, hv, hpre, blindCore, Bool.not_false, Bool.and_true, if_true, purgeEffect] at h
+      split at h
+      · simp at h
+      · simpa using h
+  · obtain ⟨hc, _⟩ := mem_opt h
+    simp [addingCore, mustBlockCore, blindCore, hpre, hsp] at hc
+  · obtain ⟨hc, _⟩ := mem_opt h
+    simp [removingCore, hfin] at hc
+  · obtain ⟨hc, _⟩ := mem_opt h
+    simp [addingCore, removingCore, mustBlockCore, blindCore, hpre, hsp, hfin] at hc
+  · obtain ⟨hc, _⟩ := mem_opt h
+    simp [releaseCore, hfin] at hc
+  · obtain ⟨hc, _⟩ := mem_opt h
+    simp [touchCore, earlyExitCore, waitingCore, addingCore, removingCore, mustBlockCore, blindCore, hpre, hsp, hfin,
+      hlin] at hc
+
+/-- the end of a cycle does not look at the deadline when the early exit implies that a request which
+    changes the object is due, or when it returns a delay anyway -/
+theorem finishCycle_deadline (v : Repairs) (o : Obj) (hasS patched₀ nonEmpty early handled : Bool)
+    (h : early = true → patched₀ = true ∨ (v.exitCarried = true ∧ nonEmpty = true)) :
+    (finishCycle v { o with timed := true } hasS patched₀ nonEmpty early handled).1 =
+      (finishCycle v { o with timed := false } hasS patched₀ nonEmpty early handled).1 := by
+  rcases o with ⟨d, g, b, c, co, l, hd, res, recs, t⟩
+  cases early
+  · simp [finishCycle]
+  · rcases h rfl with hp | ⟨h1, h2⟩
+    · subst hp; simp [finishCycle, touchCore]
+    · subst h2; simp [finishCycle, waitingCore, h1]
+
+/-- /repo 30557a0 as far as this property can see it (the rework of 608a57d): a deadline
+    (`consistency_time`) that is over changes nothing in what a cycle does to the object, compared with
+    pre-proven consistency -- the early exit is taken only with a carried patch, and then it comes back
+    at once with or without a deadline -/
+theorem deadline_writes_nothing (r : Registry V) (cs : Causes V) (o : Obj) (stopped : List String) :
+    cycle r cs { o with timed := true } stopped = cycle r cs { o with timed := false } stopped := by
+  simp only [cycle, cycleAt, cycleFull, patchNonEmpty, Obj.carriedEff]
+  congr 1
+  apply finishCycle_deadline
+  intro h
+  simp only [earlyExitCore, Bool.true_and, Bool.not_not, Bool.and_eq_true] at h
+  exact Or.inr ⟨rfl, by simpa using h.2⟩
 
 -- ---------------------------------------------------------------------------------------------
 -- the resource selector (docs/resources.rst), after the positional notation has been parsed
@@ -851,10 +993,12 @@ def wC (changing : Bool) (body old new : Option J) (label : Option String := non
     annotations := fun _ => none, body := fun _ => body, old := fun _ => old, new := fun _ => new,
     kind := { reason := .create, initial := false, marked := false } }
 
-/-- the object flags of a cycle: own finalizer, carried patch, lingering daemon (rest: false/empty) -/
-def wO (blocked : Bool := false) (carried : Bool := false) (lingering : Bool := false) : Obj :=
-  { deletedEvent := false, ongoing := false, blocked := blocked, carried := carried, lingering := lingering,
-    handlerDelays := false, resumed := [] }
+/-- the object flags of a cycle: own finalizer, carried patch (effective unless said otherwise),
+    lingering daemon, progress records present (rest: false/empty) -/
+def wO (blocked : Bool := false) (carried : Bool := false) (lingering : Bool := false)
+    (records : List (String × List String) := []) (carriedOps : Bool := true) : Obj :=
+  { deletedEvent := false, ongoing := false, blocked := blocked, carried := carried, carriedOps := carriedOps,
+    lingering := lingering, handlerDelays := false, resumed := [], records := records, timed := false }
 
 def isNoneCb : Option J → Bool
   | some .null => true
@@ -991,8 +1135,9 @@ example :
     ∀ g ∈ [h, { h with labels := some [] }], g.key ≠ ({ h with fn := 1, func := 1 } : Handler J).key := by
   intro h g hg; simp at hg; rcases hg with rfl | rfl <;> decide
 
-/-- the carried-in transformation is re-sent to an object that nothing matches (and nothing else
-    is done): the guard `o.carried = false` of `stealth_*_partial` is necessary -/
+/-- the carried-in transformation (one that still has something to change) is re-sent to an object
+    that nothing matches (and nothing else is done): the guard `o.carriedEff = false` of
+    `stealth_*_partial` is necessary -/
 theorem stealth_carried_witness :
     ∃ (r : Registry J) (cs : Causes J) (o : Obj), prematchAny r.changing cs.changing = false ∧
       (∀ h ∈ r.watching, matchHandler h cs.watching = false) ∧
@@ -1012,6 +1157,62 @@ theorem stealth_blocked_witness :
 -- a carried patch also postpones the handling of an object that DOES match (exit to PATCHing first)
 example : cycle wR (wCs (some "v")) (wO true true) [] = [Effect.carried] ∧
     cycle wR (wCs (some "v")) (wO true) [] = [Effect.handle ["h"]] := by decide
+
+/-- REGRESSION of /repo 608a57d and of its rework (findings C03-N2 / C06-F9, seen from this property:
+    "for every event the handlers whose criteria hold are invoked"): a carried transformation that the
+    conflicting change has fulfilled already (no operation on the object at hand) used to swallow the cycle
+    -- the handlers skipped for the sake of a re-patching that sends nothing, so no further event, and the
+    matching handler `h` never invoked for that change. /repo 608a57d forgets it beforehand: `h` runs in
+    this very cycle. The rework keeps it in the patch (it is re-evaluated on the freshest state when
+    patching) and comes back at once instead: the cycle ends with the touch, whose event runs `h`.
+    Replayed by corpus/C15/d21-carried-fulfilled-comes-back-at-once.json on /repo 02af7ce (the rework). -/
+theorem carried_fulfilled_regression :
+    cycleAt ⟨false, true, true, false⟩ wR (wCs (some "v")) (wO true true false [] false) [] = [] ∧
+    cycleAt Repairs.at608 wR (wCs (some "v")) (wO true true false [] false) [] = [Effect.handle ["h"]] ∧
+    cycleAt Repairs.rework wR (wCs (some "v")) (wO true true false [] false) [] = [Effect.touch] ∧
+    -- an unmatched object is not written to in any of them (a no-op transformation sends nothing)
+    cycleAt ⟨false, true, true, false⟩ wR (wCs none) (wO false true false [] false) [] = [] ∧
+    cycleAt Repairs.at608 wR (wCs none) (wO false true false [] false) [] = [] ∧
+    cycleAt Repairs.rework wR (wCs none) (wO false true false [] false) [] = [] := by decide
+
+/-- REGRESSION of /repo 423b86f (finding C03-F2, seen from this property: "no annotations"): the object
+    stopped matching (label gone) while `h` and its sub-handler `h/s` were in progress; their records
+    are on the object, beside a record of somebody else (`zz`). The blind branch used to do nothing --
+    the framework's annotations stayed on an object that nothing matches; now it patches exactly the own
+    ones away and leaves the foreign one alone. Replayed by corpus/C15/d22-leftover-records-purged.json. -/
+theorem stealth_leftover_regression :
+    let recs := [("h", ["h/s"]), ("h/s", []), ("zz", ["zz/s"]), ("zz/s", [])]
+    cycleAt ⟨true, false, true, false⟩ wR (wCs none) (wO false false false recs) [] = [] ∧
+    cycleAt Repairs.at608 wR (wCs none) (wO false false false recs) [] = [Effect.purge ["h", "h/s"]] ∧
+    cycle wR (wCs none) (wO false false false recs) [] = [Effect.purge ["h", "h/s"]] ∧
+    -- a sub-handler record whose parent's record is gone is not recognised as one's own
+    cycle wR (wCs none) (wO false false false [("h/s", []), ("zz", [])]) [] = [] ∧
+    -- with a leftover own finalizer as well: both are taken off, nothing is put on
+    cycle wR (wCs none) (wO true false false recs) [] = [Effect.purge ["h", "h/s"], Effect.removeFinalizer] := by
+  decide
+
+/-- C15-F9 (NEW with /repo 423b86f): "own" is decided BY NAME. The model's `Obj.records` does not say
+    who wrote a record, and neither can the code: an operator whose only handler `h` needs label lk purges
+    the record `h` from an object WITHOUT that label -- also when the record was written a moment ago by
+    another deployment of the same code that serves the objects without the label (same handler ids, same
+    prefix, other filters). So the removal is "of its own leftovers" only under the hypothesis that no
+    other operator uses the same ids on this object; without it the clause is violated literally (this
+    operator never matched the object and never put anything on it) and the two operators chase each other
+    for ever: replayed on the real code, two operators on one simulated cluster, by corpus/C15/F9.json. -/
+theorem stealth_purge_by_name_witness :
+    ∃ (r : Registry J) (cs : Causes J) (o : Obj), prematchAny r.changing cs.changing = false ∧
+      (∀ h ∈ r.watching, matchHandler h cs.watching = false) ∧
+      (∀ h ∈ r.spawning, matchHandler h cs.spawning = false) ∧
+      o.blocked = false ∧ o.carriedEff = false ∧ o.lingering = false ∧
+      cycle r cs o [] = [Effect.purge ["h"]] ∧ (Effect.purge ["h"]).isFrameworkWrite = true :=
+  ⟨wR, wCs none, wO false false false [("h", [])], by decide, by simp [wR], by simp [wR], rfl, rfl, rfl, by decide, rfl⟩
+
+-- non-vacuity of `stealth_removals_only_partial` / `stealth_total_partial` / `stealth_never_handled_partial` /
+-- `purgeIds_iff`: the hypotheses hold for `wR`, the unlabelled object, with and without leftovers
+example : (wO true false false [("h", [])]).carriedEff = false ∧ (wO true false false [("h", [])]).lingering = false ∧
+    (wO false true false [] false).carriedEff = false ∧
+    purgeIds wR.changing [("h", ["h/s"]), ("h/s", []), ("zz", [])] = ["h", "h/s"] ∧
+    purgeIds wR.changing [("zz", [])] = [] ∧ ownedIds wR.changing = ["h"] := by decide
 
 def kex : Resource :=
   { group := "kopf.dev", version := "v1", plural := "kopfexamples", kind := some "KopfExample",
